@@ -3,6 +3,7 @@ package main
 import (
 	"fmt"
 	"os"
+	"time"
 	"go/ast"
 	"go/token"
 	"go/types"
@@ -231,8 +232,11 @@ func (e *Engine) bmcSearch(r *FnResult, prop, repoDir string, kinds map[string]b
 		}
 		tried := 0
 		for _, o := range br.Obls {
-			if !(o.Prop == prop || prop == "") || !kinds[o.Kind] || e.knownObl[o.Name] {
+			if !(o.Prop == prop || prop == "") || !kinds[o.Kind] || e.knownObl[oblBase(o.Name)] {
 				continue
+			}
+			if !e.failDeadline.IsZero() && time.Now().After(e.failDeadline) {
+				return nil
 			}
 			smt := e.smtFile(br.Ctx, o, true)
 			file := fmt.Sprintf("%s/bmc_%s_%d.smt2", e.workDir, sanitizeFile(o.Name), k)
